@@ -420,6 +420,9 @@ func (fr *frame) lookup(in *ssa.Lookup) Value {
 		if mt, ok := in.X.Type().Underlying().(*types.Map); ok {
 			vt = mt.Elem()
 		}
+		if c != nil {
+			fr.p.raceAccess(fr, c, false, "a map")
+		}
 		e := fr.p.mapFind(c, fr.get(in.Index))
 		var v Value
 		if e != nil {
